@@ -1,5 +1,472 @@
-import GnpyModel.Scalar
-/- model file Slots (see DESIGN.md §2) -/
-namespace Gnpy
+import GnpyModel.Py
+/-
+Model of gnpy/topology/spectrum_assignment.py (+ order_slots/restore_order/find_common_range of core/utils.py and
+compute_spectrum_slot_vs_bandwidth of topology/request.py) for properties C14 and C15.
 
-end Gnpy
+Frequencies, bandwidths and bit rates are integer Hz / bit/s (`Int`): for such operands below 2^53 the float
+expressions of the code (`int((f - 193.1e12) / grid)`, `193.1e12 + n * grid`, `ceil(bw / bit_rate)`) are exact, so
+the ITU-grid logic is compared exactly with the implementation.
+Errors of the implementation are `Except String` with the name of the exception class.
+-/
+namespace Gnpy.Slots
+open Gnpy.Py
+
+abbrev E := Except String
+
+/-- BitmapValue -/
+inductive Cell where
+  | free | occupied | unusable
+  deriving DecidableEq, Repr, Inhabited
+
+def anchorHz : Int := 193100000000000
+def defaultGrid : Int := 6250000000
+def defaultGuardband : Int := 25000000000
+def slotWidthHz : Int := 12500000000
+
+/-- `frequency_to_n`: `(int)((freq - 193.1e12) / grid)` -/
+def frequencyToN (f : Int) (grid : Int := defaultGrid) : Int := truncDiv (f - anchorHz) grid
+/-- `nvalue_to_frequency` -/
+def nToFrequency (n : Int) (grid : Int := defaultGrid) : Int := anchorHz + n * grid
+/-- `mvalue_to_slots` -/
+def mToSlots (n m : Int) : Int × Int := (n - m, n + m - 1)
+/-- `slots_to_m` -/
+def slotsToM (startn stopn : Int) : Int × Int := (truncDiv (startn + stopn + 1) 2, truncDiv (stopn - startn + 1) 2)
+/-- `m_to_freq` -/
+def mToFreq (n m : Int) (grid : Int := defaultGrid) : Int × Int :=
+  (nToFrequency (mToSlots n m).1 grid, nToFrequency ((mToSlots n m).2 + 1) grid)
+
+/-- class Bitmap -/
+structure Bitmap where
+  nMin : Int
+  nMax : Int
+  idxMin : Int          -- freq_index_min
+  idxMax : Int          -- freq_index_max
+  freqIndex : List Int
+  cells : List Cell     -- bitmap
+  guardband : Int
+  deriving DecidableEq, Repr
+
+/-- `Bitmap.__init__` (freq_index_min/max use the default grid, as in the code) -/
+def Bitmap.create (fMin fMax grid guardband : Int) (bitmap : Option (List Cell)) : E Bitmap :=
+  if grid = 0 then throw "ZeroDivisionError" else
+  let nMin := frequencyToN fMin grid
+  let nMax := frequencyToN fMax grid
+  let fi := intRange nMin (nMax + 1)
+  let mk (c : List Cell) : Bitmap :=
+    { nMin := nMin, nMax := nMax, idxMin := frequencyToN (fMin + guardband), idxMax := frequencyToN (fMax - guardband),
+      freqIndex := fi, cells := c, guardband := guardband }
+  match bitmap with
+  | none => pure (mk (rep (nMax - nMin + 1) Cell.free))
+  | some c => if c.length = fi.length then pure (mk c) else throw "SpectrumError"
+
+/-- `Bitmap.geti` -/
+def Bitmap.geti (b : Bitmap) (n : Int) : Option Nat := indexOf? n b.freqIndex
+
+/-- `Bitmap.insert_left` -/
+def Bitmap.insertLeft (b : Bitmap) (newCells : List Cell) : E Bitmap :=
+  let fi := intRange (b.nMin - newCells.length) b.nMin ++ b.freqIndex
+  match fi with
+  | [] => throw "IndexError"
+  | f0 :: _ => pure { b with cells := newCells ++ b.cells, freqIndex := fi, nMin := f0 }
+
+/-- `Bitmap.insert_right` -/
+def Bitmap.insertRight (b : Bitmap) (newCells : List Cell) : E Bitmap :=
+  let fi := b.freqIndex ++ intRange (b.nMax + 1) (b.nMax + 1 + newCells.length)
+  match fi.getLast? with
+  | none => throw "IndexError"
+  | some fl => pure { b with cells := b.cells ++ newCells, freqIndex := fi, nMax := fl }
+
+/-- `Bitmap.insert_right` as it was before the repair 5edacf9c (indices started at n_max): kept for the witness -/
+def Bitmap.insertRightOld (b : Bitmap) (newCells : List Cell) : E Bitmap :=
+  let fi := b.freqIndex ++ intRange b.nMax (b.nMax + newCells.length)
+  match fi.getLast? with
+  | none => throw "IndexError"
+  | some fl => pure { b with cells := b.cells ++ newCells, freqIndex := fi, nMax := fl }
+
+/-- the body of the loop of `align_grids` for one map -/
+def alignLeft (nMin : Int) (b : Bitmap) : E Bitmap :=
+  if b.nMin - nMin > 0 then b.insertLeft (rep (b.nMin - nMin) Cell.occupied) else pure b
+def alignRight (nMax : Int) (b : Bitmap) : E Bitmap :=
+  if nMax - b.nMax > 0 then b.insertRight (rep (nMax - b.nMax) Cell.occupied) else pure b
+def alignOne (nMin nMax : Int) (b : Bitmap) : E Bitmap := do
+  let b1 ← alignLeft nMin b
+  alignRight nMax b1
+
+/-- `align_grids` on the bitmaps (the OMS objects are otherwise untouched); `min()`/`max()` of an empty list: ValueError -/
+def alignGrids (l : List Bitmap) : E (List Bitmap) :=
+  match l with
+  | [] => throw "ValueError"
+  | b0 :: bs =>
+    let nMin := bs.foldl (fun a b => if b.nMin < a then b.nMin else a) b0.nMin
+    let nMax := bs.foldl (fun a b => if b.nMax > a then b.nMax else a) b0.nMax
+    mapE (alignOne nMin nMax) l
+
+/-- OMS: the spectrum map and the service bookkeeping -/
+structure Oms where
+  bm : Bitmap
+  nbChannels : Int
+  services : List String
+  deriving DecidableEq, Repr
+
+/-- `OMS.assign_spectrum` on the bitmap -/
+def assignSpectrum (b : Bitmap) (n m : Int) : E Bitmap :=
+  if m ≤ 0 then throw "SpectrumError" else
+  if n > b.idxMax then throw "SpectrumError" else
+  if n < b.idxMin then throw "SpectrumError" else
+  if n + m - 1 > b.nMax then throw "SpectrumError" else
+  if n - m ≤ b.nMin then throw "SpectrumError" else
+  match b.geti (n - m), b.geti (n + m - 1) with
+  | some i, some j =>
+    pure { b with cells := sliceAssign b.cells i ((j : Int) + 1) (rep ((n + m - 1) - (n - m) + 1) Cell.occupied) }
+  | _, _ => throw "ValueError"
+
+/-- `bitmap_sum` -/
+def bitmapSum (b1 b2 : List Cell) : List Cell :=
+  List.zipWith (fun x y => if x = Cell.free ∧ y = Cell.free then Cell.free else Cell.occupied) b1 b2
+
+/-- the loop of `aggregate_oms_bitmap` over `path_oms[1:]` -/
+def aggCells (s : List Oms) : List Nat → List Cell → E (List Cell)
+  | [], acc => pure acc
+  | o :: os, acc =>
+    match s[o]? with
+    | none => throw "IndexError"
+    | some x => aggCells s os (bitmapSum x.bm.cells acc)
+
+/-- `aggregate_oms_bitmap`: a fresh bitmap (a value, never aliasing an OMS) -/
+def aggregate (path : List Nat) (s : List Oms) : E Bitmap :=
+  match path with
+  | [] => throw "IndexError"
+  | p0 :: rest =>
+    match s[p0]? with
+    | none => throw "IndexError"
+    | some o0 => do
+      let cells ← aggCells s rest o0.bm.cells
+      Bitmap.create (nToFrequency o0.bm.nMin) (nToFrequency o0.bm.nMax) defaultGrid o0.bm.guardband (some cells)
+
+inductive Policy where
+  | firstFit | lastFit | other
+  deriving DecidableEq, Repr
+
+/-- one element of the candidate comprehension of `spectrum_selection` (requested_n is None):
+    `some n` when position `i` is a candidate with centre `n` -/
+def candAt (b : Bitmap) (m : Int) (i : Nat) : E (Option Int) :=
+  if slice b.cells i ((i : Int) + 2 * m) = rep (2 * m) Cell.free then
+    match index? b.freqIndex i with
+    | none => throw "IndexError"
+    | some fi =>
+      if fi ≥ b.idxMin then
+        match index? b.freqIndex ((i : Int) + 2 * m - 1) with
+        | none => throw "IndexError"
+        | some fj => if fj ≤ b.idxMax then pure (some (fi + m)) else pure none
+      else pure none
+  else pure none
+
+/-- the candidate list (centres), in increasing position -/
+def candidates (b : Bitmap) (m : Int) : List Nat → E (List Int)
+  | [] => pure []
+  | i :: is => do
+    let c ← candAt b m i
+    let r ← candidates b m is
+    pure (match c with | some n => n :: r | none => r)
+
+/-- `select_candidate` -/
+def selectCandidate (c : List Int) (pol : Policy) : E (Option Int) :=
+  match c with
+  | [] => pure none
+  | x :: xs =>
+    match pol with
+    | .firstFit => pure (some x)
+    | .lastFit => pure (some ((x :: xs).getLast?.getD x))
+    | .other => throw "ServiceError"
+
+/-- `spectrum_selection(test_oms, requested_m, None, policy)` -/
+def spectrumSelection (b : Bitmap) (m : Int) (pol : Policy) : E (Option Int) := do
+  let c ← candidates b m (List.range b.cells.length)
+  selectCandidate c pol
+
+/-- the availability test shared by `spectrum_selection(requested_n=…)` and `determine_slot_numbers`:
+    `avail[c-i:c+i] == [FREE]*(2i) and freq_index[c-i] >= idx_min and freq_index[c+i-1] <= idx_max` -/
+def centredFree (b : Bitmap) (c : Nat) (i : Int) : E Bool :=
+  if slice b.cells ((c : Int) - i) ((c : Int) + i) = rep (2 * i) Cell.free then
+    match index? b.freqIndex ((c : Int) - i) with
+    | none => throw "IndexError"
+    | some fa =>
+      if fa ≥ b.idxMin then
+        match index? b.freqIndex ((c : Int) + i - 1) with
+        | none => throw "IndexError"
+        | some fb => pure (decide (fb ≤ b.idxMax))
+      else pure false
+  else pure false
+
+/-- `spectrum_selection(test_oms, requested_m, requested_n)` -/
+def spectrumSelectionAt (b : Bitmap) (m n : Int) : E (Option Int) :=
+  match b.geti n with
+  | none => throw "ValueError"
+  | some c => do
+    if (← centredFree b c m) then pure (some n) else pure none
+
+/-- the `while` of `determine_slot_numbers`; the fuel bounds the number of iterations ("hang" when exhausted:
+    the Python loop does not terminate for per_channel_m = 0 inside a free zone) -/
+def dsnLoop (b : Bitmap) (c : Nat) (requiredM pcm : Int) : Nat → Int → E Int
+  | 0, _ => throw "hang"
+  | fuel + 1, i => do
+    if (← centredFree b c i) then
+      if i ≤ requiredM then dsnLoop b c requiredM pcm fuel (i + pcm) else pure (i - pcm)
+    else pure (i - pcm)
+
+/-- `determine_slot_numbers` (a centre outside the map offers no slot: 0, repair 70910493) -/
+def determineSlotNumbers (b : Bitmap) (n requiredM pcm : Int) : E Int :=
+  match b.geti n with
+  | none => pure 0
+  | some c => dsnLoop b c requiredM pcm (b.cells.length + 2) pcm
+
+/-- one `{'N':…, 'M':…}` of effective_freq_slot -/
+structure Entry where
+  n : Option Int
+  m : Option Int
+  deriving DecidableEq, Repr
+
+/-- comparison of the sort key of `order_slots`:
+    `(-M, N) if M is given else (inf, N)`, a missing N counting as `inf` -/
+def optLe (x y : Option Int) : Bool :=
+  match x, y with
+  | some a, some b => a ≤ b
+  | some _, none => true
+  | none, some _ => false
+  | none, none => true
+
+def optLt (x y : Option Int) : Bool :=
+  match x, y with
+  | some a, some b => a < b
+  | some _, none => true
+  | none, _ => false
+
+def keyLe (a b : Nat × Entry) : Bool :=
+  let ka := a.2.m.map (fun m => -m)
+  let kb := b.2.m.map (fun m => -m)
+  optLt ka kb || (ka == kb && optLe a.2.n b.2.n)
+
+/-- `order_slots`: the entries with their original positions, larger M first, then N, undefined values last (stable) -/
+def orderSlots (es : List Entry) : List (Nat × Entry) := sorted keyLe (enumerate es)
+
+/-- `restore_order(elements, order)` -/
+def restoreOrder {α : Type} (elements : List (Option α)) (order : List Nat) : List α :=
+  (sorted (fun a b => decide (a.2 ≤ b.2)) (enumerate order)).filterMap (fun p => (elements[p.1]?).join)
+
+/-- the body of the `for n, m in zip(rq_N, rq_M)` loop of `compute_n_m` up to the selection: `none` = `break` -/
+def selectOne (t : Bitmap) (e : Entry) (remaining pcm : Int) (pol : Policy) : E (Option (Int × Int)) :=
+  match e.m, e.n with
+  | some m, some n => do
+    let av ← determineSlotNumbers t n m m
+    if av = 0 then pure none else pure (some (n, m))
+  | some m, none => do
+    match ← spectrumSelection t m pol with
+    | none => pure none
+    | some n => pure (some (n, m))
+  | none, some n => do
+    let m ← determineSlotNumbers t n remaining pcm
+    if m = 0 ∨ remaining = 0 then pure none else pure (some (n, m))
+  | none, none =>
+    -- the demand is already served by the previous slots: the entry is left unused (repair 740f9477)
+    if remaining ≤ 0 then pure none else do
+    match ← spectrumSelection t remaining pol with
+    | none => pure none
+    | some n => pure (some (n, remaining))
+
+/-- the loop of `compute_n_m` on the test bitmap: selected (N, M) in processing order, remaining slots -/
+def nmLoop (pcm : Int) (pol : Policy) : Bitmap → Int → List Entry → E (List (Int × Int) × Int)
+  | _, remaining, [] => pure ([], remaining)
+  | t, remaining, e :: es => do
+    match ← selectOne t e remaining pcm pol with
+    | none => pure ([], remaining)
+    | some (n, m) => do
+      let t' ← assignSpectrum t n m
+      let r ← nmLoop pcm pol t' (remaining - m) es
+      pure ((n, m) :: r.1, r.2)
+
+/-- `compute_n_m`: selected (N, M) in request order (unserved entries dropped), remaining slots to serve -/
+def computeNM (requiredM : Int) (entries : List Entry) (path : List Nat) (s : List Oms) (pcm : Int) (pol : Policy) :
+    E (List (Int × Int) × Int) := do
+  let ord := orderSlots entries
+  let t ← aggregate path s
+  let r ← nmLoop pcm pol t requiredM (ord.map (·.2))
+  let padded := r.1.map some ++ List.replicate (ord.length - r.1.length) none
+  pure (restoreOrder padded (ord.map (·.1)), r.2)
+
+/-- `compute_spectrum_slot_vs_bandwidth` -/
+def slotsVsBandwidth (bandwidth spacing bitRate : Int) : E (Int × Int) :=
+  if bitRate = 0 then throw "ZeroDivisionError" else
+  let nb := ceilDiv bandwidth bitRate
+  pure (nb, ceilDiv spacing slotWidthHz * nb)
+
+structure Request where
+  id : String
+  preBlocked : Bool            -- hasattr(rq, 'blocking_reason')
+  entries : List Entry         -- zip(rq.N, rq.M)
+  pathBandwidth : Int
+  bitRate : Int
+  spacing : Int
+  pathOms : List Nat           -- build_path_oms_id_list(pth + rpth)
+  deriving Repr
+
+inductive Outcome where
+  | skipped                              -- already blocked: N = M = None, reason untouched
+  | blocked (reason : String)            -- N = M = None
+  | accepted (nm : List (Int × Int))     -- rq.N, rq.M
+  deriving DecidableEq, Repr
+
+/-- all assignments of one request on one OMS, then `add_service` -/
+def applyOms (o : Oms) (sel : List (Int × Int)) (id : String) (nbWl : Int) : E Oms := do
+  let b ← sel.foldlM (fun b nm => assignSpectrum b nm.1 nm.2) o.bm
+  pure { bm := b, nbChannels := o.nbChannels + nbWl, services := o.services ++ [id] }
+
+/-- the final `for oms_elem in path_oms` loop -/
+def applyPath (sel : List (Int × Int)) (id : String) (nbWl : Int) : List Nat → List Oms → E (List Oms)
+  | [], s => pure s
+  | o :: os, s =>
+    match s[o]? with
+    | none => throw "IndexError"
+    | some x => do
+      let x' ← applyOms x sel id nbWl
+      applyPath sel id nbWl os (s.set o x')
+
+/-- the reserved-spectrum consistency check: `Some nb` = number of channels carried by the given M (all M given and
+    non-zero), `none` = check not applicable -/
+def reservedChannels (entries : List Entry) (pcm : Int) : E (Option Int) :=
+  if entries.all (fun e => match e.m with | some m => m != 0 | none => false) then
+    if pcm = 0 then (if entries.isEmpty then pure (some 0) else throw "ZeroDivisionError")
+    else pure (some (sumInt (entries.map (fun e => floorDiv (e.m.getD 0) pcm))))
+  else pure none
+
+/-- `nb_wl > nb_channels_of_request` when the check applies -/
+def reservedShort (entries : List Entry) (pcm nbWl : Int) : E Bool := do
+  match ← reservedChannels entries pcm with
+  | some nb => pure (decide (nbWl > nb))
+  | none => pure false
+
+/-- one iteration of `pth_assign_spectrum` -/
+def step (pol : Policy) (s : List Oms) (r : Request) : E (List Oms × Outcome) :=
+  if r.preBlocked then pure (s, Outcome.skipped) else do
+  let nr ← slotsVsBandwidth r.pathBandwidth r.spacing r.bitRate
+  let pc ← slotsVsBandwidth r.bitRate r.spacing r.bitRate
+  if (← reservedShort r.entries pc.2 nr.1) then
+    pure (s, Outcome.blocked "NOT_ENOUGH_RESERVED_SPECTRUM")
+  else do
+    let sr ← computeNM nr.2 r.entries r.pathOms s pc.2 pol
+    if sr.2 > 0 then pure (s, Outcome.blocked "NO_SPECTRUM")
+    else do
+      let s' ← applyPath sr.1 r.id nr.1 r.pathOms s
+      pure (s', Outcome.accepted sr.1)
+
+/-- `pth_assign_spectrum` over a list of requests: final state and the outcome of every request -/
+def run (pol : Policy) : List Oms → List Request → E (List Oms × List Outcome)
+  | s, [] => pure (s, [])
+  | s, r :: rs => do
+    let (s1, o) ← step pol s r
+    let (s2, os) ← run pol s1 rs
+    pure (s2, o :: os)
+
+
+/-! ### C15: OMS construction and the spectrum map of an OMS -/
+
+/-- an amplifier band `(f_min, f_max)` in Hz (the `spacing` key plays no role for the spectrum map) -/
+abbrev Band := Int × Int
+
+/-- `sorted(amp, key=lambda x: x['f_min'])` -/
+def sortBands (l : List Band) : List Band := sorted (fun a b => decide (a.1 ≤ b.1)) l
+
+/-- `remove_duplicates`: first occurrences, order kept -/
+def removeDuplicates : List (List Band) → List (List Band) → List (List Band)
+  | acc, [] => acc
+  | acc, a :: as => if a ∈ acc then removeDuplicates acc as else removeDuplicates (acc ++ [a]) as
+
+/-- one round of step 3 of `find_common_range` -/
+def intersectBands (common bands : List Band) : List Band :=
+  common.flatMap (fun f => bands.filterMap (fun s =>
+    let lo := if f.1 ≤ s.1 then s.1 else f.1
+    let hi := if f.2 ≤ s.2 then f.2 else s.2
+    if lo < hi then some (lo, hi) else none))
+
+/-- `find_common_range` (f_min/f_max only): `ampBands` = the `params.bands` of the amplifiers of an OMS in element order,
+    `dflt` = the SI band used when the OMS has no amplifier -/
+def commonRange (ampBands : List (List Band)) (dflt : Option Band) : List Band :=
+  match removeDuplicates [] (ampBands.map sortBands) with
+  | [] => match dflt with
+    | some d => [d]
+    | none => []
+  | c0 :: rest => sortBands ((c0 :: rest).foldl intersectBands c0)
+
+/-- first / last slot index whose centre frequency lies inside a band: `ceil((f_min − 193.1e12) / grid)` and
+    `floor((f_max − 193.1e12) / grid)` (band edges rounded inwards, repair d0f17fb2) -/
+def bandLo (f grid : Int) : Int := ceilDiv (f - anchorHz) grid
+def bandHi (f grid : Int) : Int := floorDiv (f - anchorHz) grid
+
+/-- the cells contributed by the common bands after index `prevMax`: unusable up to the band, free inside
+    `[bandLo f_min, bandHi f_max]`; returns the cells and the last index written -/
+def bandCells (grid : Int) : Int → List Band → List Cell × Int
+  | prevMax, [] => ([], prevMax)
+  | prevMax, b :: bs =>
+    let r := bandCells grid (bandHi b.2 grid) bs
+    (rep (bandLo b.1 grid - prevMax - 1) Cell.unusable ++
+      rep (bandHi b.2 grid - bandLo b.1 grid + 1) Cell.free ++ r.1, r.2)
+
+/-- `create_oms_bitmap` (the first band is the case `prevMax = n_min − 1` of the loop; `n_max = frequency_to_n(f_max)`,
+    repair ec64bb7b) -/
+def createOmsBitmap (bands : List Band) (fMin fMax grid : Int) : E (List Cell) :=
+  if grid = 0 then throw "ZeroDivisionError" else
+  match bands with
+  | [] => throw "IndexError"
+  | _ :: _ =>
+    let r := bandCells grid (frequencyToN fMin grid - 1) bands
+    pure (r.1 ++ rep (frequencyToN fMax grid - r.2) Cell.unusable)
+
+/-- `create_oms_bitmap` as it was before the repair (`n_max = frequency_to_n(f_max) − 1`): kept for the witness -/
+def createOmsBitmapOld (bands : List Band) (fMin fMax grid : Int) : E (List Cell) :=
+  if grid = 0 then throw "ZeroDivisionError" else
+  match bands with
+  | [] => throw "IndexError"
+  | _ :: _ =>
+    let r := bandCells grid (frequencyToN fMin grid - 1) bands
+    pure (r.1 ++ rep (frequencyToN fMax grid - 1 - r.2) Cell.unusable)
+
+/-- one line system between two ROADMs: uids from the ingress ROADM to the egress ROADM, and the bands of its amplifiers -/
+structure Chain where
+  els : List String
+  ampBands : List (List Band)
+  deriving Repr
+
+structure OmsRec where
+  id : Nat
+  els : List String
+  bm : Bitmap
+  reversed : Option Nat
+  deriving Repr
+
+/-- `find_network_freq_range`: lowest f_min and highest f_max over all amplifier bands of the network -/
+def networkRange (bands : List Band) : E (Int × Int) :=
+  match bands with
+  | [] => throw "ValueError"
+  | b :: bs => pure (bs.foldl (fun a x => if x.1 < a then x.1 else a) b.1, bs.foldl (fun a x => if x.2 > a then x.2 else a) b.2)
+
+/-- `reversed_oms`: the first OMS that runs between the same two ROADMs the other way -/
+def reversedOms (l : List (List String)) (i : Nat) : Option Nat :=
+  match l[i]? with
+  | none => none
+  | some e => l.findIdx? (fun o => decide (e.head? = o.getLast? ∧ e.getLast? = o.head?))
+
+/-- the spectrum map of one OMS: `create_oms_bitmap` + `update_spectrum` -/
+def omsBitmap (fMin fMax : Int) (si : Option Band) (c : Chain) : E Bitmap := do
+  let cells ← createOmsBitmap (commonRange c.ampBands si) fMin fMax defaultGrid
+  Bitmap.create fMin fMax defaultGrid defaultGuardband (some cells)
+
+/-- `build_oms_list` on the chain abstraction: ids in construction order, spectrum map from the common band of the OMS
+    over the network-wide range with the default guard band, alignment, reverse pairing -/
+def buildOmsList (chains : List Chain) (netBands : List Band) (si : Option Band) : E (List OmsRec) := do
+  let (fMin, fMax) ← networkRange netBands
+  let bms ← mapE (omsBitmap fMin fMax si) chains
+  let aligned ← alignGrids bms
+  let els := chains.map (·.els)
+  pure (((chains.zip aligned).zipIdx).map (fun p =>
+    ({ id := p.2, els := p.1.1.els, bm := p.1.2, reversed := reversedOms els p.2 } : OmsRec)))
+
+end Gnpy.Slots
